@@ -130,10 +130,11 @@ def gen_duel(rng: random.Random, tier: str) -> dict:
     for _ in range(rng.randrange(2, 7)):
         typ = rng.choice(["RaftRequestVote", "RaftRequestVote", "RaftAppendEntries", "RaftVoteResponse", "RaftAppendEntriesResponse"])
         lo = rng.uniform(0, dur * 0.8)
+        src = rng.choice(names + [None])
         rules.append(
             {
-                "src": rng.choice(names + [None]),
-                "dst": rng.choice(names),
+                "src": src,
+                "dst": rng.choice([x for x in names if x != src]),
                 "type": typ,
                 "nth": None,
                 "after": _r(lo),
@@ -160,6 +161,78 @@ def gen_duel(rng: random.Random, tier: str) -> dict:
         "script": script,
         "faults": _faults(rng, names, dur, et_max) if rng.random() < 0.6 else [],
         "ticks": _ticks(rng, dur, et_max),
+    }
+
+
+def gen_staleack(rng: random.Random, tier: str) -> dict:
+    """Scripted adversary, randomised: acknowledgements of an old term are held in the network until
+    their addressee leads again in a later term with different entries at the same indices.
+
+    Roles (a random permutation of 5 nodes): A leads first and replicates only to B, whose
+    acknowledgements are held; X is forced to win the next term among {X,Y,Z} (the timers of the other
+    two are dropped by short crashes) and overwrites index 1; A is then forced to win again, is cut
+    from Z, gets new commands and one genuine acknowledgement from Y while B's old ones arrive;
+    finally only B, X, Z stay up.  All instants are jittered and scaled; seeds are free, so many cases do not
+    line up - those are ordinary chaos runs.
+    """
+    perm = [f"n{i}" for i in range(5)]
+    rng.shuffle(perm)
+    A, B, X, Y, Z = perm
+    s = rng.choice([0.3, 0.5, 1.0])
+
+    def t(x):
+        return _r((x + rng.uniform(-0.02, 0.02)) * s)
+
+    hold = rng.choice([6.9, 6.9, 6.9, 6.5, 7.3, 5.0])
+    d0 = _r(rng.uniform(0.0005, 0.004) * s)
+    n_first = rng.choice([1, 2, 3, 5])
+    n_second = rng.choice([1, 2, 3])
+    faults = [{"kind": "crash", "node": v, "at": t(0.9), "restart_at": t(1.25)} for v in (B, X, Y, Z)]
+    faults += [
+        {"kind": "partition", "a": [A], "b": [X, Y, Z], "start": t(3.0), "end": t(6.0), "asym": False},
+        {"kind": "crash", "node": Y, "at": t(3.75), "restart_at": t(4.3)},
+        {"kind": "crash", "node": Z, "at": t(3.75), "restart_at": t(4.3)},
+        {"kind": "crash", "node": B, "at": t(4.0), "restart_at": t(10.7)},
+        {"kind": "crash", "node": A, "at": t(4.35), "restart_at": t(6.02)},
+        {"kind": "crash", "node": X, "at": t(7.0), "restart_at": t(10.7)},
+        {"kind": "crash", "node": Y, "at": t(7.75), "restart_at": t(8.25)},
+        {"kind": "crash", "node": Z, "at": t(7.75), "restart_at": t(8.25)},
+        {"kind": "partition", "a": [A], "b": [Z], "start": t(9.8), "end": t(30.0), "asym": False},
+        {"kind": "crash", "node": Y, "at": t(10.6), "restart_at": None},
+        {"kind": "crash", "node": A, "at": t(10.6), "restart_at": None},
+    ]
+    ticks = [{"t": t(3.1 + 0.03 * j), "mode": "all", "pick": 0} for j in range(n_first)]
+    ticks.append({"t": t(5.7), "mode": "all", "pick": 0})
+    ticks += [{"t": t(9.9 + 0.04 * j), "mode": "all", "pick": 0} for j in range(n_second)]
+    ticks.append({"t": t(12.5), "mode": "all", "pick": 0})
+    ticks.sort(key=lambda k: k["t"])
+    return {
+        "n": 5,
+        "et": [_r(1.0 * s), _r(1.2 * s)],
+        "hb": _r(0.2 * s),
+        "seed": rng.randrange(1 << 30),
+        "duration": _r(14.0 * s),
+        "script": {
+            "seed": rng.randrange(1 << 30),
+            "family": "fixed",
+            "base": [d0, d0],
+            "loss": 0.0,
+            "rules": [
+                {
+                    "src": B,
+                    "dst": A,
+                    "type": "RaftAppendEntriesResponse",
+                    "nth": None,
+                    "after": t(3.05),
+                    "before": t(3.9),
+                    "delay": _r(hold * s),
+                    "drop": False,
+                }
+            ],
+        },
+        "faults": faults,
+        "ticks": ticks,
+        "roles": {"A": A, "B": B, "X": X, "Y": Y, "Z": Z},
     }
 
 
@@ -264,15 +337,15 @@ def run_calm(case: dict) -> Result:
                     if now > give_up:
                         st["verdict"] = "no-leader-established"
                         return None
-                    return M.client_event(now + poll, client, "ClientPoll", False)
+                    return M.client_event(event.time + poll, client, "ClientPoll", False)
                 if st["since"] is None or st["since"][0] != e:
                     st["since"] = (e, now)
                 if now - st["since"][1] < 2 * dmax + 1e-9:
-                    return M.client_event(now + min(poll, max(dmax, 1e-4)), client, "ClientPoll", False)
+                    return M.client_event(event.time + min(poll, max(dmax, 1e-4)), client, "ClientPoll", False)
                 st["phase"] = 1
                 st["leader"], st["term"] = e
                 st["t_established"] = now
-                return M.client_event(now, client, "ClientSubmit", False, j=0)
+                return M.client_event(event.time, client, "ClientSubmit", False, j=0)
             if kind == "ClientSubmit":
                 j = event.context["metadata"]["j"]
                 L = st["leader"]
@@ -283,9 +356,9 @@ def run_calm(case: dict) -> Result:
                 st["cmds"].append(cmd)
                 st["recs"].append(mon.submit(L, cmd))
                 if j + 1 < K:
-                    return M.client_event(now + gaps[j], client, "ClientSubmit", False, j=j + 1)
+                    return M.client_event(event.time + gaps[j], client, "ClientSubmit", False, j=j + 1)
                 st["last_submit"] = now
-                return M.client_event(now + bound, client, "ClientDeadline", False)
+                return M.client_event(event.time + bound, client, "ClientDeadline", False)
             if kind == "ClientDeadline":
                 st["verdict"] = "checked"
                 cmds = st["cmds"]
@@ -343,8 +416,9 @@ FAMILIES = {
     "chaos": Family("chaos", gen_chaos, run_chaos, case_timeout=90.0),
     "duel": Family("duel", gen_duel, run_chaos, case_timeout=90.0),
     "calm": Family("calm", gen_calm, run_calm, case_timeout=60.0),
+    "staleack": Family("staleack", gen_staleack, run_chaos, case_timeout=90.0),
 }
 BUDGET = {
-    "quick": {"chaos": 4000, "duel": 2000, "calm": 600},
-    "thorough": {"chaos": 150000, "duel": 80000, "calm": 20000},
+    "quick": {"chaos": 2400, "duel": 1200, "calm": 400, "staleack": 200},
+    "thorough": {"chaos": 150000, "duel": 80000, "calm": 20000, "staleack": 6000},
 }
